@@ -15,6 +15,7 @@ pub const CORPUS: &str = "/repo/examples/genji/genji.lab";
 
 thread_local! {
     static LAST_PANIC: RefCell<Option<PanicNote>> = const { RefCell::new(None) };
+    static GUARD_DEPTH: Cell<u32> = const { Cell::new(0) };
     pub static FUEL: Cell<u64> = const { Cell::new(u64::MAX) };
     pub static FUEL_ON: Cell<bool> = const { Cell::new(false) };
     pub static SITE_COUNTS: RefCell<[u64; 16]> = const { RefCell::new([0; 16]) };
@@ -32,7 +33,17 @@ impl PanicNote {
     pub fn class(&self) -> String {
         let m: String = self.msg.chars().filter(|c| !c.is_ascii_digit()).collect();
         let m = if m.len() > 100 { m[..100].to_string() } else { m };
-        format!("{}|{}", self.file, m)
+        // machine-independent path: strip the cargo registry / rustc prefixes
+        let mut f = self.file.as_str();
+        if let Some(i) = f.find("/registry/src/") {
+            let rest = &f[i + "/registry/src/".len()..];
+            f = rest.split_once('/').map(|x| x.1).unwrap_or(rest);
+        } else if let Some(i) = f.find("/library/") {
+            if f.starts_with("/rustc/") {
+                f = &f[i + 1..];
+            }
+        }
+        format!("{}|{}", f, m)
     }
 }
 
@@ -48,6 +59,9 @@ pub fn install_panic_hook() {
         } else {
             "<non-string payload>".to_string()
         };
+        if GUARD_DEPTH.with(|d| d.get()) == 0 {
+            eprintln!("jbsim: harness panic at {}:{}: {}", file, line, msg);
+        }
         LAST_PANIC.with(|p| *p.borrow_mut() = Some(PanicNote { file, line, msg }));
     }));
 }
@@ -55,7 +69,10 @@ pub fn install_panic_hook() {
 /// Run `f`, catching a panic; the panic hook has recorded where it came from.
 pub fn guarded<T>(f: impl FnOnce() -> T) -> Result<T, PanicNote> {
     LAST_PANIC.with(|p| *p.borrow_mut() = None);
-    match std::panic::catch_unwind(std::panic::AssertUnwindSafe(f)) {
+    GUARD_DEPTH.with(|d| d.set(d.get() + 1));
+    let r = std::panic::catch_unwind(std::panic::AssertUnwindSafe(f));
+    GUARD_DEPTH.with(|d| d.set(d.get() - 1));
+    match r {
         Ok(v) => Ok(v),
         Err(_) => Err(LAST_PANIC
             .with(|p| p.borrow_mut().take())
